@@ -211,6 +211,18 @@ def staged_shapes():
                 yield [S, G, P], [(("S", "o"), ("G", "i")), (("G", "o"), ("P", "i")), (("P", "o"), ("G", "j"))]
 
 
+def big_ring_shapes():
+    """rings of 5-7 components that are all stuck (every initial value is computed from the predecessor's), plus a free pair and a victim
+    downstream of the ring: the error has to name every stuck component, however many"""
+    for n in (5, 6, 7):
+        names = [chr(65 + k) for k in range(n)]
+        specs = [(nm, [("i", "decl")], [("o", "decl", "pull:i")], 0) for nm in names]
+        links = [((names[k], "o"), (names[(k + 1) % n], "i")) for k in range(n)]
+        specs += [("V", [("i", "decl")], [], 0), ("S", [], [("o", "decl", "const")], 0), ("T", [("i", "decl")], [], 0)]
+        links += [((names[0], "o"), ("V", "i")), (("S", "o"), ("T", "i"))]
+        yield specs, links
+
+
 def stuck_plus_arg_shapes():
     """a genuinely stuck pair (mutual initial pulls) next to components that hand in their infos on every call"""
     for src_mode in ("decl", "arg", "open"):
@@ -237,6 +249,12 @@ def run(tier, seed, agg):
     # the same with ConnectHelper(cache=False): the harness components hand in everything they can on every call, so nothing may depend on the cache
     nocache = list(single_slot_shapes(2, lambda n: [(0, 0), (1, 0)])) + list(two_slot_shapes()) + list(stuck_plus_arg_shapes())
     cases += [dict(shapes=nocache[i : i + 40], lo_mode="two" if q else "all", cache=False) for i in range(0, len(nocache), 40)]
+    big = list(big_ring_shapes())
+    for sh in big:
+        n = len(sh[0])
+        names = [x[0] for x in sh[0]]
+        for order in (names, names[::-1], names[3:] + names[:3]):
+            cases.append(dict(shapes=[sh], order=order, link_order=list(range(len(sh[1])))))
     # helper layer: one component, scripted peers, all sequences of connect calls / stepwise provided items / peer events
     for n_in in (0, 1, 2):
         for n_out in (0, 1, 2):
